@@ -77,3 +77,22 @@ Proof.
   vm_compute. intros H. discriminate H.
 Qed.
 Print Assumptions C19_her_add_pinned_refuted.
+
+(* predict() on a Dict observation WITHOUT the deep copy (seeded changes C11_4 / C19_4): the reshape / transposition is
+   applied to the caller's own dict - the call modifies an object it was handed *)
+Theorem C19_predict_dict_nocopy_refuted :
+  disciplined 1 1 predict_dict_nocopy = false /\
+  exists w es, Inv 1 w /\ ~ frame_holds F1 w es.
+Proof.
+  split; [vm_compute; reflexivity|].
+  exists (mk_world [[0%Z]; [5%Z]] [0] [] [1]).
+  exists [ECall predict_dict_nocopy [1]].
+  split.
+  - unfold Inv; cbn [w_slots w_heap w_known length]. split; [reflexivity|]. split.
+    + intros l [<-|[]]. lia.
+    + intros l [<-|[]]. split; [lia|]. intros [Hc|[]]. discriminate Hc.
+  - intros H. destruct H as [H _].
+    specialize (H 1). vm_compute in H.
+    pose proof (H (or_introl eq_refl)) as Hc. discriminate Hc.
+Qed.
+Print Assumptions C19_predict_dict_nocopy_refuted.
